@@ -166,7 +166,7 @@ pub mod logger_handle {
     //@   ens[trigger_rotation.post.ok_means_all_ok] r is Ok ==> (self.is_multi() ==> mw_rotate_result() is Ok)
     //@       && forall|w: Box<dyn LogWriter>| #[trigger] self.writers().values().contains(w) ==> ow_rotate_result(w.wid()) is Ok
     //@ fn src/logger_handle.rs impl LoggerHandle / fn flush
-    //@   props C04
+    //@   props C04,C15
     //@   loop 1 iter it
     //@   loop 1 inv[LoggerHandle::flush.loop.all] forall|w: Box<dyn LogWriter>| self.writers().values().contains(w) ==> #[trigger] it.seq().contains(&w)
     //@   loop 1 inv[LoggerHandle::flush.loop.done] pw_flushed() && forall|j: int| 0 <= j < it.index@ ==> ow_flushed((#[trigger] it.seq()[j]).wid())
